@@ -9,6 +9,9 @@ THEOREMS = ["GmqttVerif.Stats." + t for t in
             ["global_is_sum", "global_exact", "client_exact", "clientTotal_eq_sum", "per_qos_exact", "gauges_exact",
              "client_gauges_exact", "conn_gauges_exact", "no_underflow",
              "asis_qos_miscounted", "asis_inflight_wraps", "asis_gauges_leak", "asis_auth_invisible"]]
+THEOREMS.append("GmqttVerif.C20Source.session_stats_events_under_mu")
+EXTRA_MODULES = ["GmqttVerif.Properties.C20Source"]
+NEEDS_FACTS = ["MuHeld"]
 COMPS = ["stats"]
 
 TYPES = ["auth", "connect", "connack", "disconnect", "pingreq", "pingresp", "puback", "pubcomp", "publish", "pubrec", "pubrel",
@@ -490,6 +493,39 @@ def rec_f34(info):
     return bool(m) and set(m.group(1).split(" | ")) <= F34_CLASSES
 
 RECOGNISERS = {"c20_f34_stats": rec_f34}
+
+def extra(r):
+    """model-side search for the obligation session_stats_events_under_mu: a session-scoped statistics event booked outside srv.mu
+    can land behind the events of the next session of the same client id; the event log below is then possible, and the model
+    (Stats.run) shows the live session's figures gone"""
+    import os, subprocess
+    try:
+        facts = open(os.path.join(core.LEAN, "GmqttVerif", "Generated", "MuHeld.lean")).read()
+    except OSError:
+        return
+    m = re.search(r"def statsSessionSiteCodes : List Nat :=\s*\n\s*\[(.*?)\]", facts)
+    ms = re.search(r"def statsSessionSites : List String :=\s*\n\s*\[(.*?)\]\n", facts, re.S)
+    if not m:
+        return
+    codes = [int(x) for x in m.group(1).split(",") if x.strip()]
+    sites = re.findall(r'"([^"]*)"', ms.group(1)) if ms else []
+    bad = [sites[i] if i < len(sites) else "?" for i, c in enumerate(codes) if c == 0]
+    if not bad:
+        return
+    # connection 1 of client c ends (session not kept): its sessionTerminated is late; connection 2 of the same id registers,
+    # connects and receives a packet in between
+    evs = "sa/1;cc/c;pr/c/connect/1/20;cd/c;sa/1;cc/c;pr/c/connect/1/20;pr/c/publish/3/60;st/c/normal"
+    ops = ["new", "stats ev=" + evs]
+    try:
+        out = subprocess.run([core.oracle_exe("stats")], input="\n".join(ops) + "\n", capture_output=True, text=True, timeout=60).stdout.split("\n")
+    except Exception as e:          # noqa
+        out = ["?", f"(oracle_stats not run: {e})"]
+    body = ("# server: a session-scoped statistics event is booked without srv.mu held: " + "; ".join(bad) + "\n"
+            "# (Generated/MuHeld.lean statsSessionSiteCodes = %s). A new session of the same client id can be registered as soon as the lock is\n"
+            "# free, so this event log is possible: the end of connection 1's session (`st/c`) lands behind connection 2's CONNECT and three\n"
+            "# PUBLISH packets. The model (oracle_stats, Stats.run) then shows client c's per-client entry gone while its session is live:\n"
+            "#   %s\n#stream stats-late-termination-log\n" % (codes, (out[1] if len(out) > 1 else "?")[:600])) + "\n".join(ops) + "\n"
+    r.violation("late-session-event", body, True, "a session-scoped statistics event is booked outside srv.mu (event log in the replay)")
 
 def run(r):
     return core.standard_run(r, __import__(__name__, fromlist=["x"]))
